@@ -40,7 +40,7 @@ static uint32_t g_k, g_o;
 #define PSET  g_ssl.supportedVersionsPeer
 #define PPRIO g_ssl.peerSupportedVersionsPriority
 #define PLEN  g_ssl.peerSupportedVersionsPriorityLen
-#define ERR   (RET == (psSize_t) MATRIXSSL_ERROR)
+#define ERR   (RET < 0)   /* a refusal is a negative value: that is what both callers test (rc < 0) */
 #define PPRIO_K PPRIO[g_k < 16 ? g_k : 0]
 /* an even offset of an entry inside the body: body[0] is the list length */
 #define O_IS_ENTRY (g_o < 16 && 1 + 2 * g_o + 1 < g_len)
@@ -83,11 +83,11 @@ static int in_peer_list(uint32_t v)
     P(malformed_length_is_refused,      IMPLIES(g_len < 3 || g_body[0] != g_len - 1 || (g_len & 1) == 0, ERR)) \
     P(refusal_sets_an_alert,            IMPLIES(ERR, g_ssl.err == SSL_ALERT_DECODE_ERROR || g_ssl.err == SSL_ALERT_INTERNAL_ERROR))
 
-psSize_t tls13ParseSupportedVersions(ssl_t *ssl, const unsigned char **c, psSize_t len)
+int32_t tls13ParseSupportedVersions(ssl_t *ssl, const unsigned char **c, psSize_t len)
 __CPROVER_requires(ssl == &g_ssl && c == &g_c && g_c == g_body && len == g_len)
 __CPROVER_requires(c07_list_inv(PPRIO, PLEN, PSET))
 POSTS(ENSURES_CLAUSE)
-CANARY_CLAUSE(__CPROVER_return_value == (psSize_t) MATRIXSSL_ERROR)
+CANARY_CLAUSE(__CPROVER_return_value < 0)
 __CPROVER_assigns(g_c, g_ssl.supportedVersionsPeer, g_ssl.peerSupportedVersionsPriority, g_ssl.peerSupportedVersionsPriorityLen,
                   g_ssl.extFlags, g_ssl.err)
 ;
@@ -113,7 +113,7 @@ DECL_SNAPSHOT(ssl_t, g_ssl);
 /* all other fields of g_ssl: havocked by DFCC in the cbmc run, zero in the native replay; not read */
 HARNESS_BEGIN
     HARNESS_INPUTS(struct inputs, in);
-    psSize_t vr_ret;
+    int32_t vr_ret;
     int i;
     g_len = in.len;
     g_body = malloc(g_len ? g_len : 1);          /* a body of exactly len bytes */
